@@ -364,11 +364,21 @@ int fiber_wait_for_event(int fd, uint32_t events) {
   e.events = EPOLLONESHOT | info->events;
   e.data.fd = fd;
 
+  int ctl_ret;
   if (!info->added) {
-    epoll_ctl(event_fd, EPOLL_CTL_ADD, fd, &e);
+    ctl_ret = epoll_ctl(event_fd, EPOLL_CTL_ADD, fd, &e);
     info->added = 1;
   } else {
-    epoll_ctl(event_fd, EPOLL_CTL_MOD, fd, &e);
+    ctl_ret = epoll_ctl(event_fd, EPOLL_CTL_MOD, fd, &e);
+  }
+  if (ctl_ret < 0) {
+    // the descriptor cannot be polled (typically EBADF: it was closed, on
+    // another thread, after the caller decided to wait for it). nobody would
+    // ever report on it or close it again, so do not park the fiber
+    info->events = 0;
+    info->added = 0;
+    fiber_spinlock_unlock(&info->spinlock);
+    return FIBER_ERROR;
   }
 #elif defined(SOLARIS)
   if (events & FIBER_POLL_IN) {
